@@ -20,6 +20,7 @@ import collections
 import hashlib
 import json
 import random
+import time
 
 from lib import vcommon
 from lib.vcommon import hexb
@@ -28,14 +29,13 @@ from harness import parser_corr, parser_h
 
 LEVEL = "proof"
 ASSUMPTIONS = [
-    "the interleaving model Model/ChanExpect.v records the ORDER OF APPENDS to the output buffers (interim / final-response chunks); that the bytes reach the wire in that order, once, contiguously is C04/C17's claim (finding F18 -- the unlocked flush of handle_write racing a locked one -- is outside it and is classified separately)",
+    "the interleaving model Model/ChanExpect.v records the ORDER OF APPENDS to the output buffers (interim / final-response chunks); that the bytes reach the wire in that order, once, contiguously is C04/C17's claim (the check still flags any socket.send made while another thread holds outbuf_lock: former finding F18, repaired by fix 8bcf05e)",
     "pre-emption only at the labelled operations of harness/chan_world (lock operations, socket calls, trigger pulls; attribute accesses in the 'attrs' granularity): sequential consistency, GIL-atomic attribute loads and stores",
     "HTTPChannel.cancel() (server shutdown) and exceptions escaping _flush_some inside send_continue are not represented",
     "close_when_flushed is not reset in the model (handle_write turns it into will_close and closes the channel)",
     "the dispatcher runs service() of a channel once per add_task (C14)",
 ]
 
-KF_FLUSH = "kf_c19_unlocked_flush_race"
 
 
 def _h(obj):
@@ -193,7 +193,7 @@ def run(ctx):
     runner_p = ctx.runner("parser", "ExtParser.v")
     ctx.oblige("extracted models build (chanexpect, parser)", runner_ce is not None and runner_p is not None)
 
-    violations = 0
+    t_own = time.time()     # everything below is the check's own work (no Coq build)
 
     # ---- K-chanseq on C19 pipelines ----------------------------------------------
     n_corr = 3000 if thorough else 250
@@ -223,7 +223,7 @@ def run(ctx):
                "" if corr_ok else "disagreements or unmodelled cases")
 
     # ---- sequential search ----------------------------------------------------------
-    n_seq = 30000 if thorough else 2500
+    n_seq = 30000 if thorough else 1500
     seq_stats = collections.Counter()
     kinds_seen = collections.Counter()
     nontrivial = set()
@@ -281,15 +281,13 @@ def run(ctx):
         probs = H.world_monitor(w, reqs, waited, v, bf)
         if H.complete_at_head_hit(reqs, w.kf_hits):
             w_stats["send_continue_on_completed_request"] += 1
+        if race:
+            # repaired by fix 8bcf05e (handle_write takes outbuf_lock also when requests == []):
+            # any socket.send concurrent with another thread's locked flush is a violation
+            probs = list(probs) + ["two threads flush the output buffers concurrently (socket.send while another thread holds outbuf_lock)"]
         if probs:
-            if race:
-                kf_seen[KF_FLUSH] += 1
-                if kf_seen[KF_FLUSH] <= 1:
-                    ctx.report("world:" + KF_FLUSH, "finding F18 (C04) shows as a duplicated interim response",
-                               world_replay_dict("world", reqs, script, la, nw, bf, gran, w, probs, waited), kf_class=KF_FLUSH)
-            else:
-                mon_fail.append((reqs, script, la, nw, bf, gran, w, probs, waited))
-        if do_conf and runner_ce is not None and gran == "locks" and not race and v != "overrun":
+            mon_fail.append((reqs, script, la, nw, bf, gran, w, probs, waited))
+        if do_conf and runner_ce is not None and gran == "locks" and v != "overrun":
             n, prob, choices = H.compare_run(w, runner_ce)
             steps_validated += n
             if prob:
@@ -300,7 +298,7 @@ def run(ctx):
                     model_schedules.add(_h(choices))
         return probs
 
-    n_rand = 100 if thorough else 20          # schedules per scenario and policy family
+    n_rand = 100 if thorough else 6          # schedules per scenario and policy family
     for name, kinds, mode, la in WORLD_SCENARIOS:
         for variant in range(2):
             reqs = scenario_reqs(kinds, rng)
@@ -317,7 +315,7 @@ def run(ctx):
                 pol = PCTPolicy(random.Random(seed + 1), rng.choice([1, 2, 3]), rng.choice([60, 120, 200]))
                 w, v = world_case(reqs, script, la, nw, bf, policy=pol)
                 judge(reqs, script, waited, la, nw, bf, "locks", w, v)
-            for k in range(max(2, n_rand // 4)):   # attribute-access granularity: monitor only
+            for k in range(max(1, n_rand // 4)):   # attribute-access granularity: monitor only
                 seed = rng.randrange(1 << 30)
                 pol = RandomPolicy(random.Random(seed), stay=0.7)
                 w, v = world_case(reqs, script, la, nw, bf, policy=pol, granularity="attrs", max_steps=8000)
@@ -325,7 +323,7 @@ def run(ctx):
     # clients that send body bytes before the interim response arrives, pre-empted at
     # attribute-access granularity (the window between the worker's pop and its
     # send_continue, and between the I/O thread's received() and its next readable())
-    n_attr = 1000 if thorough else 160
+    n_attr = 1000 if thorough else 120
     at_reqs = [H.Req(0, "get"), H.Req(1, "expect_cl", b"wxyz")]
     for mode, la, stay, share in (("split_body", 1, 0.7, 1.0), ("split_same", 0, 0.9, 0.6), ("eager", 1, 0.8, 0.3)):
         script, waited = H.world_script(at_reqs, mode)
@@ -335,7 +333,7 @@ def run(ctx):
             judge(at_reqs, script, waited, la, 1, False, "attrs", w, v, do_conf=False)
             w_stats["attrs_nonwaiting_client_runs"] += 1
     # generated pipelines (including the class of the former F5/F6) under random schedules
-    n_gen = 5000 if thorough else 400
+    n_gen = 5000 if thorough else 200
     for it in range(n_gen):
         reqs = H.gen_pipeline(rng, allow_kf=(it % 4 == 0), n=rng.choice([2, 2, 3]))
         mode = rng.choice(["same_read", "later_read", "split_same", "split_body", "eager_same", "eager"])
@@ -348,7 +346,7 @@ def run(ctx):
         w, v = world_case(reqs, script, la, nw, bf, policy=pol)
         judge(reqs, script, waited, la, nw, bf, "locks", w, v)
     # bounded exhaustive exploration of the smallest scenario
-    ex_limit = 8000 if thorough else 700
+    ex_limit = 8000 if thorough else 250
     ex_reqs = [H.Req(0, "get"), H.Req(1, "expect_cl", b"xy")]
     ex_script, ex_waited = H.world_script(ex_reqs, "same_read")
 
@@ -358,7 +356,7 @@ def run(ctx):
         judge(ex_reqs, ex_script, ex_waited, 0, 1, False, "locks", w, v)
         return w.sched
 
-    ex = explore(run_case, 3 if thorough else 2, limit=ex_limit)
+    ex = explore(run_case, 3 if thorough else 1, limit=ex_limit)
     w_stats["explore_runs"] = ex["runs"]
     w_stats["explore_truncated"] = int(ex["truncated"])
     # ... and of the same pipeline with a client that sends half of the body before waiting
@@ -371,11 +369,11 @@ def run(ctx):
         judge(ex2_reqs, ex2_script, ex2_waited, 0, 1, False, "locks", w, v)
         return w.sched
 
-    ex2 = explore(run_case2, 3 if thorough else 2, limit=ex_limit)
+    ex2 = explore(run_case2, 3 if thorough else 1, limit=ex_limit)
     w_stats["explore2_runs"] = ex2["runs"]
     w_stats["explore2_truncated"] = int(ex2["truncated"])
     cov["explore"] = {"scenario": "GET /r0 + head of expecting POST /r1 in one send, client waits, then body",
-                      "max_preemptions": 3 if thorough else 2, "runs": ex["runs"],
+                      "max_preemptions": 3 if thorough else 1, "runs": ex["runs"],
                       "per_preemption_level": ex["per_preemption_level"], "truncated": ex["truncated"],
                       "second_scenario": "the same pipeline, the client sends half of the body before waiting for the interim response",
                       "second_runs": ex2["runs"], "second_per_preemption_level": ex2["per_preemption_level"],
@@ -388,7 +386,7 @@ def run(ctx):
     for reqs, script, la, nw, bf, gran, w, prob, waited in conf_fail[:2]:
         ctx.report("K-chanexpect:" + prob.split(":")[0][-30:], "real trace not allowed by Model/ChanExpect.v: " + prob,
                    world_replay_dict("conformance", reqs, script, la, nw, bf, gran, w, prob, waited))
-    ctx.oblige("search (interleaved): C19 monitor holds on every run outside the class of F18 (C04)", not mon_fail,
+    ctx.oblige("search (interleaved): C19 monitor holds on every run, and no two threads flush concurrently", not mon_fail,
                "%d violating runs" % len(mon_fail))
     ctx.oblige("K-chanexpect: every observed transition is a step of Model/ChanExpect.v with the same abstract state",
                runner_ce is not None and not conf_fail and traces_validated > 0, "%d traces fail" % len(conf_fail))
@@ -415,6 +413,7 @@ def run(ctx):
         "model_steps_validated": steps_validated,
         "k_chanseq": {k: corr_stats.get(k) for k in ("evaluations", "reads", "requests_completed", "unmodelled", "distinct_nontrivial")},
         "known_finding_hits": dict(kf_seen),
+        "wall_own_work_s": round(time.time() - t_own, 1),
         "shape_audit_lines": len(real_sig),
     })
 
